@@ -43,6 +43,10 @@ def scenario(rng, flavour):
         mix["prs"] = rng.choice([(0.0,), (0.0, 0.5, 5.0), (1.0, 30.0)])
         mix["rs"] = rng.choice([(0.0,), (0.0, 0.5, 5.0), (1.0, 30.0)])
         mix["p_same_trade"] = rng.choice([0.0, 0.4])
+        # placing a further order on a trade that has COMPLETED is outside C10's quantifier (flumine never completes such a
+        # trade again outside a response handler, before and after the F18 repair alike); the agent can do it ("reuse_done")
+        # and tools/parity_reuse.sh compares the repaired tree with the original trade.py on exactly these histories
+        mix["p_reuse_done"] = float(__import__("os").environ.get("VERIF_C10_REUSE_DONE", "0") or 0)
         mix["p_ctx"] = rng.choice([0.0, 0.3])
         strat_kw.update(max_trade_count=rng.choice([1, 2, 5, 1e6]), max_live_trade_count=rng.choice([1, 2, 3]), multi_order_trades=rng.random() < 0.5)
     if flavour == "C15":
